@@ -57,13 +57,13 @@ ASSUMPTIONS = [
     "sc3.base.clock logger",
 ]
 MIN_COUNTERS = {
-    'quick': {'chain_lookups_compared': 3000, 'scale_keys_compared': 1000,
-              'play_s_new_checked': 800, 'play_gate_off_checked': 300,
-              'play_no_gate_checked': 300, 'play_control_values_checked': 2000,
-              'tl_s_new_checked': 500, 'tl_rests_silent': 30,
-              'tl_total_duration_checked': 150, 'tl_with_ppar': 50,
-              'tl_with_pdur_clipping': 10, 'tl_with_pdelta': 30,
-              'tl_with_pchain': 30, 'tl_mono_set_checked': 20},
+    'quick': {'chain_lookups_compared': 20000, 'scale_keys_compared': 5000,
+              'play_s_new_checked': 5000, 'play_gate_off_checked': 2000,
+              'play_no_gate_checked': 2000, 'play_control_values_checked': 10000,
+              'tl_s_new_checked': 4000, 'tl_rests_silent': 300,
+              'tl_total_duration_checked': 800, 'tl_with_ppar': 300,
+              'tl_with_pdur_clipping': 40, 'tl_with_pdelta': 200,
+              'tl_with_pchain': 200, 'tl_mono_set_checked': 200},
     'thorough': {'chain_lookups_compared': 300000, 'scale_keys_compared': 100000,
                  'play_s_new_checked': 80000, 'play_gate_off_checked': 30000,
                  'play_no_gate_checked': 30000,
